@@ -49,8 +49,8 @@ def check_c11(ctx):
                         "a session id counts as issued when it arrives on a response with status < 400"]
     r = tlc.run_tlc("HttpTransport", "mc/HttpTransport.cfg", work=os.path.join(ctx.work, "mc"), timeout=900, coverage=True)
     ctx.add_model_run("mc/HttpTransport.cfg", r)
-    if r.invariant_violated:
-        print("MODEL-STALE: HttpTransport violates %s" % r.invariant_violated)
+    if r.invariant_violated or r.property_violated:
+        print("MODEL-STALE: HttpTransport violates %s" % (r.invariant_violated + ["property:" + str(x) for x in r.property_violated]))
     mx = matrix(ctx)
     rng = random.Random(ctx.seed + 11)
     probe = {"kind": "request", "idc": "str", "beh": OK}
